@@ -420,6 +420,11 @@ func init() {
 		// ---- runtime ----
 		"runtime.Gosched": noopIntrinsic, "runtime.GC": noopIntrinsic, "runtime.KeepAlive": noopIntrinsic, "runtime.SetFinalizer": noopIntrinsic,
 		"runtime.Caller": noopIntrinsic, "runtime.NumGoroutine": noopIntrinsic, "runtime.Stack": noopIntrinsic,
+		"time.now": func(ex *Exec, fn *ssa.Function, a []Value, site token.Pos) Value {
+			ex.stub("time.now (fixed instant 2026-09-21T17:46:40Z; natively the real clock)")
+			return TupleV{ex.tc.Const(64, 1790012800), ex.tc.Const(32, 0), ex.tc.Const(64, 1)}
+		},
+		"time.runtimeNano": func(ex *Exec, fn *ssa.Function, a []Value, site token.Pos) Value { return ex.tc.Const(64, 1) },
 		"os.Exit": func(ex *Exec, fn *ssa.Function, a []Value, site token.Pos) Value { ex.abort("exit", "os.Exit called"); return nil },
 		"os.Getenv": func(ex *Exec, fn *ssa.Function, a []Value, site token.Pos) Value {
 			ex.stub("os.Getenv (returns \"\")")
